@@ -126,6 +126,9 @@ def call(c):
                 s, w = arr(c['s']), arr(c['w'])
                 runs = []
                 for _rep in range(2):
+                    # the two runs start from DIFFERENT global RNG states: only the seed argument may make them agree
+                    np.random.seed(1234567 + 7919 * _rep)
+                    np.random.random(5 + 3 * _rep)
                     s1, w1 = s.copy(), w.copy()
                     h = RecordingHMF(s1, w1, K=c['K'], n_iter=c['n_iter'], seed=c['seed'],
                                      nonnegative=bool(c['nonnegative']), epsilon=c.get('eps'))
